@@ -93,8 +93,13 @@ def run_seqof(ops, typed):
                     model[i] = a
             elif k == 'sort':
                 if model:
-                    obj.sort(key=lambda x: int(x))
-                    model = sorted(model)
+                    if a % 3 == 0:
+                        obj.sort(key=lambda x: int(x))
+                        model = sorted(model)
+                    else:
+                        # coarse key with ties, both directions: list.sort is stable, also with reverse=True
+                        obj.sort(key=lambda x: int(x) // 3, reverse=bool(a % 3 - 1))
+                        model = sorted(model, key=lambda x: x // 3, reverse=bool(a % 3 - 1))
             elif k == 'reverse':
                 if model:
                     obj.reverse()
@@ -387,6 +392,37 @@ def novalue_checks():
     return fails, n
 
 
+def sort_grid(tier):
+    """SequenceOf.sort(key, reverse) against list.sort on every list over a small alphabet (ties under a coarse key,
+    both directions), plus reverse() and slicing reads afterwards"""
+    import itertools
+    from pyasn1.type import univ
+    fails, n = [], 0
+    keys = [('none', None, None), ('coarse', lambda x: int(x) // 2, lambda x: x // 2), ('parity', lambda x: int(x) % 2, lambda x: x % 2),
+            ('const', lambda x: 0, lambda x: 0)]
+    maxlen = 4 if tier == 'quick' else 5
+    for L in range(1, maxlen + 1):
+        for vals in itertools.product(range(5), repeat=L):
+            for kname, kobj, kmodel in keys:
+                for rev in (False, True):
+                    n += 1
+                    s = univ.SequenceOf(componentType=univ.Integer())
+                    s.extend(vals)
+                    model = list(vals)
+                    try:
+                        s.sort(key=kobj, reverse=rev)
+                    except Exception as e:
+                        fails.append(rec('sort(key=%s, reverse=%r) on %r raised %s' % (kname, rev, list(vals), type(e).__name__),
+                                         history=['sort-grid']))
+                        continue
+                    model.sort(key=kmodel, reverse=rev)
+                    got = [int(x) for x in s]
+                    if got != model:
+                        fails.append(rec('sort(key=%s, reverse=%r) on %r gives %r, list.sort gives %r' % (
+                            kname, rev, list(vals), got, model), history=['sort-grid']))
+    return fails, n
+
+
 def main():
     ap = argparse.ArgumentParser()
     ap.add_argument('checks')
@@ -414,6 +450,9 @@ def main():
     f2, n2 = novalue_checks()
     fails += f2
     n += n2
+    f3, n3 = sort_grid(a.tier)
+    fails += f3
+    n += n3
     if a.replay:
         want = json.loads(a.replay)
         same = [x for x in fails if x['detail'][:60] == want['detail'][:60]] or []
